@@ -483,3 +483,87 @@ Theorem C06_source_old_size_ok :
        (TI.gen.Decide.src_old_renderer_check dynamic check_size animation scroll w h tw th).
 Proof. exact TI.proofs.DecideTie.old_size_ok_is_source. Qed.
 Print Assumptions C06_source_old_size_ok.
+
+(** *** draws that TALK TO THE TERMINAL ([model/DrawQuery.v]): the first render in a process asks
+    the terminal for its colours / name / cell size AFTER [draw()] has hidden the cursor and
+    BEFORE it writes the picture; the terminal's reply arrives at the tty whenever the terminal
+    sends it, and whatever arrives while the tty's ECHO flag is on is echoed by the line
+    discipline onto the screen.  The ECHO flag and the replies are state of the model; the screen
+    receives [DrawQuery.screen]: the draw's writes interleaved with the echoes. *)
+From TI Require model.DrawQuery model.DrawQueryTie proofs.DrawQueryProofs.
+
+(** with ECHO switched off for the whole exchange -- [query_terminal]: the attribute change
+    brackets write + read -- NOTHING is echoed, on a tty found with ECHO on or off, for ANY
+    arrival time of the reply (in any number of pieces) between the transmission of the request
+    and the return of the read that waits for it: the screen receives exactly the draw's own
+    writes ... *)
+Theorem C06_query_nothing_echoed :
+  forall (e : bool) (s0 : list tok) (segs : list (list tok)) (evs : list TI.model.DrawQuery.event),
+  TI.model.DrawQuery.prog_of evs
+    = TI.model.DrawQuery.draw_prog (TI.model.DrawQuery.query_terminal e) s0 segs ->
+  TI.model.DrawQuery.timely false evs = true ->
+  TI.model.DrawQuery.screen e evs = s0 ++ concat segs.
+Proof. exact TI.proofs.DrawQueryProofs.draw_queries_nothing_echoed. Qed.
+Print Assumptions C06_query_nothing_echoed.
+
+(** ... so that every final-state theorem above ([P] := [DrawFinal W H lm top0 t0 hide pw ph Ref]
+    of [anim_stream] / [still_stream] / [old_anim_stream] / [old_still_stream]) holds of what
+    the screen receives when the draw queries the terminal *)
+Theorem C06_query_final_state :
+  forall (P : list tok -> Prop) (e : bool) (s0 : list tok) (segs : list (list tok))
+         (evs : list TI.model.DrawQuery.event) (S : list tok),
+  P S -> s0 ++ concat segs = S ->
+  TI.model.DrawQuery.prog_of evs
+    = TI.model.DrawQuery.draw_prog (TI.model.DrawQuery.query_terminal e) s0 segs ->
+  TI.model.DrawQuery.timely false evs = true ->
+  P (TI.model.DrawQuery.screen e evs).
+Proof. exact TI.proofs.DrawQueryProofs.query_final_transfer. Qed.
+Print Assumptions C06_query_final_state.
+
+(** [Renderable.draw] with [echo_input = False] keeps ECHO off around the whole draw: queries
+    inside it echo nothing whether they bracket the exchange themselves or not *)
+Theorem C06_query_new_draw_masks :
+  forall (e : bool) (s0 : list tok) (segs : list (list tok)) (evs : list TI.model.DrawQuery.event) (late : bool),
+  TI.model.DrawQuery.prog_of evs
+    = TI.model.DrawQuery.new_draw_prog e
+        (if late then TI.model.DrawQuery.query_terminal_late false else TI.model.DrawQuery.query_terminal false)
+        s0 segs ->
+  TI.model.DrawQuery.timely false evs = true ->
+  TI.model.DrawQuery.screen e evs = s0 ++ concat segs.
+Proof. exact TI.proofs.DrawQueryProofs.new_draw_masks. Qed.
+Print Assumptions C06_query_new_draw_masks.
+
+(** the correspondence's judge of a querying draw ([DrawQueryTie.qcheck]: the screen's stream
+    against [DrawQuery.screen] of the model's run under the reply schedule the harness played,
+    and against the final-state predicate) is the judge of the draw itself, whatever the
+    schedule *)
+Theorem C06_query_check_is_check :
+  forall c : TI.model.DrawQueryTie.qcase,
+  TI.model.DrawQueryTie.qcheck c = check (TI.model.DrawQueryTie.q_c c).
+Proof. exact TI.proofs.DrawQueryProofs.qcheck_is_check. Qed.
+Print Assumptions C06_query_check_is_check.
+
+(** the excluded variant -- ECHO switched off only by the read ("read_tty() already handles the
+    attributes"): a reply that arrives in the window between the transmission of the request and
+    the read's [tcsetattr] is echoed (ESC as [^[]) between the hidden cursor and the picture, and
+    the final state is lost; the same reply arriving during the read is not *)
+Theorem C06_query_late_echo_off_refuted :
+  let run := TI.proofs.DrawQueryProofs.ex_run in
+  let reply := TI.proofs.DrawQueryProofs.ex_reply in
+  let S := TI.proofs.DrawQueryProofs.ex_stream in
+  let Ref := TI.proofs.DrawQueryProofs.ex_ref in
+  TI.model.DrawQuery.prog_of (run TI.model.DrawQuery.exchange [reply] [])
+    = TI.model.DrawQuery.draw_prog (TI.model.DrawQuery.query_terminal true) [THide] [skipn 1 S]
+  /\ TI.model.DrawQuery.prog_of (run TI.model.DrawQuery.exchange_late [reply] [])
+    = TI.model.DrawQuery.draw_prog (TI.model.DrawQuery.query_terminal_late true) [THide] [skipn 1 S]
+  /\ TI.model.DrawQuery.timely false (run TI.model.DrawQuery.exchange [reply] []) = true
+  /\ TI.model.DrawQuery.timely false (run TI.model.DrawQuery.exchange_late [reply] []) = true
+  /\ TI.model.DrawQuery.screen true (run TI.model.DrawQuery.exchange [reply] []) = S
+  /\ forallb (final_ok false 10 8 4 3 Ref (TI.model.DrawQuery.screen true (run TI.model.DrawQuery.exchange [reply] []))) [0; 4; 7] = true
+  /\ TI.model.DrawQuery.screen true (run TI.model.DrawQuery.exchange_late [reply] [])
+     = [THide] ++ TI.model.DrawQuery.echo_text reply ++ skipn 1 S
+  /\ length (TI.model.DrawQuery.echo_text reply) = 28%nat
+  /\ final_ok false 10 8 4 3 Ref (TI.model.DrawQuery.screen true (run TI.model.DrawQuery.exchange_late [reply] [])) 0 = false
+  /\ TI.model.DrawQuery.screen true (run TI.model.DrawQuery.exchange_late [] [reply]) = S.
+Proof. exact TI.proofs.DrawQueryProofs.late_echo_refuted. Qed.
+Print Assumptions C06_query_late_echo_off_refuted.
